@@ -650,10 +650,14 @@ func (g *c05DocGen) boundary(t *c05Typ, f *c05Fld) c05JV {
 				"9223372036854775807", "9223372036854775808", "-9223372036854775808", "-9223372036854775809",
 				"18446744073709551615", "18446744073709551616", "-1", "0", "-0",
 				"1.5", "1.0", "1e2", "1E2", "2.5e1", "1e19", "1e-1", "0.0", "9007199254740993")
+			c = append(c, c05PowerSet()...)
 		} else {
 			c = append(c, "1e39", "-1e39", "3.4028235e38", "3.4028236e38", "3.5e38", "1e38", "1e308", "1.7976931348623157e308",
 				"1.8e308", "1e400", "-1e400", "1e-400", "5e-324", "1e-46", "0.1", "16777217", "9007199254740993",
-				"0", "-0", "0.0", "1E2", "123456789012345678901234567890")
+				"0", "-0", "0.0", "1E2", "123456789012345678901234567890",
+				"340282346638528859811704183484516925440", "340282356779733661637539395458142568447", "340282356779733661637539395458142568448",
+				"16777216", "16777217", "-16777217")
+			c = append(c, c05PowerSet()...)
 		}
 		var cc []string // candidates derived from the field's own constraint
 		if f != nil && f.Rng != nil {
@@ -692,9 +696,9 @@ func (g *c05DocGen) boundary(t *c05Typ, f *c05Fld) c05JV {
 			}
 		}
 		if len(cc) > 0 && rapid.IntRange(0, 9).Draw(rt, "bndcons") < 6 {
-			return g.wrapStr(f, c05Num(c05Pick(rt, "bndc", cc)))
+			return g.wrapStr(f, c05Num(c05Notation(rt, c05Pick(rt, "bndc", cc))))
 		}
-		return g.wrapStr(f, c05Num(c05Pick(rt, "bnd", c)))
+		return g.wrapStr(f, c05Num(c05Notation(rt, c05Pick(rt, "bnd", c))))
 	case t.K == "string":
 		if f != nil && len(f.Opts) > 0 {
 			op := c05Pick(rt, "bopt", f.Opts)
@@ -707,6 +711,80 @@ func (g *c05DocGen) boundary(t *c05Typ, f *c05Fld) c05JV {
 		return g.wrapStr(f, c05Bool(rapid.Bool().Draw(rt, "bb")))
 	}
 	return g.plainValue(t, f, 0)
+}
+
+// c05PowerSet: values at and around the powers of two where 8/16/32/53/63/64-bit
+// integers and float64 mantissas end.
+func c05PowerSet() []string {
+	one := big.NewInt(1)
+	var out []string
+	add := func(n *big.Int) { out = append(out, n.String(), new(big.Int).Neg(n).String()) }
+	for _, b := range []uint{7, 8, 15, 16, 31, 32, 53, 63, 64} {
+		p := new(big.Int).Lsh(one, b)
+		add(p)
+		add(new(big.Int).Sub(p, one))
+		add(new(big.Int).Add(p, one))
+	}
+	p63, p64 := new(big.Int).Lsh(one, 63), new(big.Int).Lsh(one, 64)
+	for _, d := range []int64{-1024, -513, -512, 512, 1024, 1025} {
+		add(new(big.Int).Add(p63, big.NewInt(d)))
+	}
+	for _, d := range []int64{-2048, -1025, 1024, 2048, 2049} {
+		add(new(big.Int).Add(p64, big.NewInt(d)))
+	}
+	return out
+}
+
+// c05Notation rewrites a JSON number literal into another notation of exactly the
+// same value: trailing ".0", exponent forms (1e3, 1E+3, 10e-1, d.ddde+N with every
+// digit kept), many-digit mantissas. The oracle computes the exact value from the
+// text with math/big, so the notation never changes what is expected.
+func c05Notation(rt *rapid.T, text string) string {
+	if !c05ReCanonInt.MatchString(text) {
+		// already fractional / exponent notation: at most change the case of the exponent marker
+		if rapid.IntRange(0, 3).Draw(rt, "notE") == 0 {
+			return strings.Replace(text, "e", "E", 1)
+		}
+		return text
+	}
+	neg := strings.HasPrefix(text, "-")
+	digits := strings.TrimPrefix(text, "-")
+	sign := ""
+	if neg {
+		sign = "-"
+	}
+	switch rapid.IntRange(0, 11).Draw(rt, "notation") {
+	case 0, 1, 2, 3: // plain
+		return text
+	case 4:
+		return text + ".0"
+	case 5:
+		return text + ".000000000000000000000"
+	case 6: // d.ddd e+N, every digit kept
+		if len(digits) == 1 {
+			return sign + digits + "e0"
+		}
+		return sign + digits[:1] + "." + digits[1:] + "e+" + strconv.Itoa(len(digits)-1)
+	case 7: // same with E and no plus sign
+		if len(digits) == 1 {
+			return sign + digits + "E+0"
+		}
+		return sign + digits[:1] + "." + digits[1:] + "E" + strconv.Itoa(len(digits)-1)
+	case 8: // one more digit, negative exponent: 10e-1
+		return sign + digits + "0e-1"
+	case 9: // trailing zeros moved into the exponent: 1000 -> 1e3
+		z := len(digits) - len(strings.TrimRight(digits, "0"))
+		if z == 0 || z == len(digits) {
+			return text + "e0"
+		}
+		return sign + digits[:len(digits)-z] + "e" + strconv.Itoa(z)
+	case 10: // what strconv prints for the nearest float64 (NOT always the same value: the oracle recomputes)
+		f, _ := new(big.Float).SetString(text)
+		x, _ := f.Float64()
+		return strconv.FormatFloat(x, 'e', -1, 64)
+	default:
+		return sign + digits + "." + strings.Repeat("0", rapid.IntRange(1, 3).Draw(rt, "zeros")) + "E+0"
+	}
 }
 
 func c05Dec(r *big.Rat) int {
